@@ -148,7 +148,9 @@ pub fn std_call(cx: &mut Ctx, full: &str, _turbofish: &[Ty], args: &[&syn::Expr]
       Ok(Some(Tr { code: x.code, ty: Ty::RawCont(Box::new(inner)), pure: x.pure }))
     }
     ("Box::from_raw", 1) | ("Rc::from_raw", 1) | ("Arc::from_raw", 1) => {
-      let x = cx.expr(args[0], None)?;
+      // the pointer type the call expects (lets `transmute!(..)` know its destination)
+      let want = match _expected { Some(Ty::Box_(t)) | Some(Ty::Rc_(t)) | Some(Ty::Arc_(t)) => Some(Ty::Ref(t.clone())), _ => None };
+      let x = cx.expr(args[0], want.as_ref())?;
       if let (Ty::Addr(t), true) = (&x.ty, full.starts_with("Box")) {
         // Box::from_raw(address as *mut T): a Box of one T at that address
         if matches!(**t, Ty::SliceOf(_)) { return Err("Box::from_raw of a bare slice address".into()); }
@@ -256,7 +258,7 @@ pub fn method_call(cx: &mut Ctx, m: &syn::ExprMethodCall, expected: Option<&Ty>)
       if inner.method == "iter" && inner.args.is_empty() {
         let s = cx.expr(&inner.receiver, None)?;
         let elem = s.ty.slice_elem().ok_or("iter() on a non-slice")?.clone();
-        let b = closure_is_valid(args[0])?;
+        let (b, negated) = closure_is_valid(args[0])?;
         if !cx.cty_names().contains(&b) {
           return Err("all/any closure over a non-checked parameter".into());
         }
@@ -267,7 +269,8 @@ pub fn method_call(cx: &mut Ctx, m: &syn::ExprMethodCall, expected: Option<&Ty>)
           return Err("iter() on an impure operand".into());
         }
         let f = if name == "all" { "all_elems" } else { "any_elems" };
-        return Ok(Tr::pure(format!("({} ENV (c_bits {}) {} (c_valid {}))", f, b, s.code, b), Ty::Bool));
+        let pred = if negated { format!("(fun t_x => negb (c_valid {} t_x))", b) } else { format!("(c_valid {})", b) };
+        return Ok(Tr::pure(format!("({} ENV (c_bits {}) {} {})", f, b, s.code, pred), Ty::Bool));
       }
     }
     return Err("unsupported all/any".into());
@@ -333,6 +336,22 @@ pub fn alloc_vocab_method(cx: &mut Ctx, m: &syn::ExprMethodCall, recv: Tr, name:
       _ => {}
     }
   }
+  if args.len() == 1 && recv.pure {
+    match (&recv.ty, name) {
+      (Ty::Usize, "checked_div") | (Ty::Usize, "checked_rem") => {
+        let y = cx.expr(args[0], Some(&Ty::Usize))?;
+        if !y.pure { return Err("checked_div of an impure operand".into()); }
+        let op = if name == "checked_div" { "/" } else { "mod" };
+        return Ok(Tr::pure(format!("(if {} =? 0 then None else Some ({} {} {}))", y.code, recv.code, op, y.code), Ty::Option(Box::new(Ty::Usize))));
+      }
+      (Ty::Option(t), "unwrap_or") => {
+        let d = cx.expr(args[0], Some(&**t))?;
+        if !d.pure { return Err("unwrap_or of an impure default".into()); }
+        return Ok(Tr::pure(format!("(match {} with Some t_v => t_v | None => {} end)", recv.code, d.code), (**t).clone()));
+      }
+      _ => {}
+    }
+  }
   if args.is_empty() && recv.pure {
     if let (Ty::Box_(t), "into_vec") = (&recv.ty, name) {
       if let Ty::SliceOf(e) = &**t {
@@ -391,11 +410,20 @@ pub fn alloc_vocab_method(cx: &mut Ctx, m: &syn::ExprMethodCall, recv: Tr, name:
   Err(format!("unsupported method .{}() on {:?} in `{}`", name, recv.ty, quote::quote!(#m)))
 }
 
-fn closure_is_valid(e: &syn::Expr) -> R<String> {
-  // |p| <B as CheckedBitPattern>::is_valid_bit_pattern(p)
+fn closure_is_valid(e: &syn::Expr) -> R<(String, bool)> {
+  // |p| <B as CheckedBitPattern>::is_valid_bit_pattern(p)   or its negation  |p| !<B as ..>::is_valid_bit_pattern(p)
   if let syn::Expr::Closure(c) = e {
     if c.inputs.len() == 1 {
-      if let (syn::Pat::Ident(pi), syn::Expr::Call(call)) = (&c.inputs[0], &*c.body) {
+      let mut body = &*c.body;
+      let mut negated = false;
+      loop {
+        match body {
+          syn::Expr::Paren(p) => body = &p.expr,
+          syn::Expr::Unary(u) if matches!(u.op, syn::UnOp::Not(_)) => { negated = !negated; body = &u.expr; }
+          _ => break,
+        }
+      }
+      if let (syn::Pat::Ident(pi), syn::Expr::Call(call)) = (&c.inputs[0], body) {
         if let syn::Expr::Path(fp) = &*call.func {
           if let Some(q) = &fp.qself {
             let last = fp.path.segments.last().map(|s| s.ident.to_string()).unwrap_or_default();
@@ -404,7 +432,7 @@ fn closure_is_valid(e: &syn::Expr) -> R<String> {
                 if ap.path.is_ident(&pi.ident) {
                   if let syn::Type::Path(tp) = &*q.ty {
                     if let Some(id) = tp.path.get_ident() {
-                      return Ok(id.to_string());
+                      return Ok((id.to_string(), negated));
                     }
                   }
                 }
@@ -615,10 +643,18 @@ fn translate_impl_method(ms: &ModuleSpec, sigs: &HashMap<(String, String), FnSig
     // fn drop(&mut self) { if COND { unsafe { dealloc(P, L) }; } }  ==>  the dealloc call made, if any
     let mut cx = Ctx { ms, sigs, generics: generics.clone(), vars: params.clone(), ret: Ty::Unit, fresh: 0, callees: vec![], self_ty: Some(self_ty.clone()), aliases: vec![] };
     let stmts = &m.block.stmts;
-    if stmts.len() != 1 { return Err("drop: expected a single `if`".into()); }
+    // two shapes: `if COND { dealloc(..) }`  and  `if NCOND { return; } dealloc(..)`
+    let early_return = stmts.len() == 2 && matches!(&stmts[0], syn::Stmt::Expr(syn::Expr::If(i), _)
+      if i.else_branch.is_none() && i.then_branch.stmts.len() == 1
+         && matches!(&i.then_branch.stmts[0], syn::Stmt::Expr(syn::Expr::Return(r), _) if r.expr.is_none()));
+    if stmts.len() != 1 && !early_return { return Err("drop: expected a single `if` (or a guard returning early, then the call)".into()); }
     let ife = match &stmts[0] { syn::Stmt::Expr(syn::Expr::If(i), _) => i, _ => return Err("drop: expected a single `if`".into()) };
     if ife.else_branch.is_some() || ife.then_branch.stmts.len() != 1 { return Err("drop: unexpected shape of the `if`".into()); }
-    let mut inner = match &ife.then_branch.stmts[0] { syn::Stmt::Expr(e, _) => e, _ => return Err("drop: unexpected statement".into()) };
+    let mut inner = if early_return {
+      match &stmts[1] { syn::Stmt::Expr(e, _) => e, _ => return Err("drop: unexpected statement".into()) }
+    } else {
+      match &ife.then_branch.stmts[0] { syn::Stmt::Expr(e, _) => e, _ => return Err("drop: unexpected statement".into()) }
+    };
     loop {
       match inner {
         syn::Expr::Unsafe(u) if u.block.stmts.len() == 1 => match &u.block.stmts[0] { syn::Stmt::Expr(e, _) => inner = e, _ => return Err("drop: unexpected unsafe block".into()) },
@@ -635,7 +671,11 @@ fn translate_impl_method(ms: &ModuleSpec, sigs: &HashMap<(String, String), FnSig
     if c.ty != Ty::Bool || !matches!(p.ty, Ty::Addr(_)) || l.ty != Ty::Layout || !c.pure || !p.pure || !l.pure {
       return Err("drop: operands of an unexpected type".into());
     }
-    let code = format!("Definition {} (ENV : env) (v_self : boxbytes) : outcome (option (N * layout)) :=\n  Ret (if {} then Some ({}, {}) else None).", coq_name, c.code, p.code, l.code);
+    let code = if early_return {
+      format!("Definition {} (ENV : env) (v_self : boxbytes) : outcome (option (N * layout)) :=\n  Ret (if {} then None else Some ({}, {})).", coq_name, c.code, p.code, l.code)
+    } else {
+      format!("Definition {} (ENV : env) (v_self : boxbytes) : outcome (option (N * layout)) :=\n  Ret (if {} then Some ({}, {}) else None).", coq_name, c.code, p.code, l.code)
+    };
     return Ok((code, vec![]));
   }
   let ret = match &m.sig.output {
